@@ -64,7 +64,7 @@ type fakeProvider struct {
 	tag  int
 }
 
-func (f *fakeProvider) GetType() reflect.Type                    { return f.id.Type }
+func (f *fakeProvider) GetType() reflect.Type                     { return f.id.Type }
 func (f *fakeProvider) GetKey() any                               { return f.id.Key }
 func (f *fakeProvider) GetGroup() string                          { return f.id.Group }
 func (f *fakeProvider) GetDependencies() []*reflection.Dependency { return f.deps }
